@@ -30,6 +30,8 @@ use ckb_logger::{error, info};
 use ckb_store::{ChainDB, ChainStore};
 use ckb_types::{BlockNumberAndHash, H256};
 pub use init::{ChainServiceScope, build_chain_services, start_chain_services};
+#[cfg(ckb_verif)]
+pub use utils::orphan_block_pool::OrphanBlockPool;
 
 type ProcessBlockRequest = Request<LonelyBlock, ()>;
 type TruncateRequest = Request<Byte32, Result<(), Error>>;
